@@ -153,10 +153,11 @@ func (ma *MagAnalysis) problem(fn *ssa.Function, pos token.Pos, key, what string
 }
 
 // loc classifies an address of a Field value.
-//   local:  "L:<name>"            a local Field variable
-//   coord:  "C:<base>.<coord>"    coordinate of a local record or of a record parameter (base = variable name)
-//   ext:    "E:<Rec>.<coord>"     coordinate of a record reached through memory we do not track (tables, array elements)
-//   other:  "" (unknown)
+//
+//	local:  "L:<name>"            a local Field variable
+//	coord:  "C:<base>.<coord>"    coordinate of a local record or of a record parameter (base = variable name)
+//	ext:    "E:<Rec>.<coord>"     coordinate of a record reached through memory we do not track (tables, array elements)
+//	other:  "" (unknown)
 func (ma *MagAnalysis) loc(fn *ssa.Function, v ssa.Value) string {
 	switch x := v.(type) {
 	case *ssa.Alloc:
